@@ -63,6 +63,32 @@ def run(ctx):
                       "the compiled query (self.* of the expression / handler)",
                       "the compiled query changes while searching, so the next search can give a different answer")
 
+    # ---------------- R15.4: partial results are merged by object identity
+    ctx.rule("R15.4", "search results are merged / compared by object identity, never by tag equality")
+    mergers = [m for m in sr.methods.values() if m.name in ("merge_and_result", "has_same_tags")] + \
+        [m for m in helpers if m.name == "merge_and_groups"]
+    ctx.floor("R15.4", "result-merging functions", len(mergers), 3)
+    n_id = 0
+    for m in mergers:
+        ctx.saw(m)
+        for c in walk_no_nested(m.node):
+            if isinstance(c, ast.Compare):
+                ops = c.ops
+                involved = norm(c)
+                if any(isinstance(o, (ast.In, ast.NotIn)) for o in ops) and ".tags" in norm(c.comparators[0]):
+                    ctx.violation("R15.4", m.qualname, c, loc(m, c),
+                                  "membership in a result's tag list is tested with `in` (tag equality): two distinct but "
+                                  "equal-looking tags collapse into one, so `A && A` can be satisfied by a single tag or a "
+                                  "distinct sibling is dropped from the merged result")
+                elif any(isinstance(o, (ast.Is, ast.IsNot)) for o in ops):
+                    n_id += 1
+                elif any(isinstance(o, (ast.Eq, ast.NotEq)) for o in ops) and "tag" in involved and "group" not in involved \
+                        and "len(" not in involved:
+                    ctx.violation("R15.4", m.qualname, c, loc(m, c),
+                                  "tags of two results are compared with == (equality) instead of identity")
+    ctx.floor("R15.4", "identity comparisons in the merging functions", n_id, 3)
+    ctx.ok("R15.4", "%d identity comparisons, no equality/membership test on tag lists in %d merging functions" % (n_id, len(mergers)), "")
+
     # ---------------- R15.3
     gp = qh.methods.get("_handle_grouping_op")
     parse = qh.methods.get("_parse")
@@ -101,6 +127,15 @@ def run(ctx):
                         ok = False
                     seen.add(x)
                     stack.extend(m for (m, l) in v.cfg.succ[x] if l != "exc")
+            # ... and the test must come after the *last* fetch of a closing token in the branch (a check hoisted
+            # before the optional part no longer sees the token that ends the group)
+            if ok:
+                fetches = [k for k in v.cfg.nodes if k.kind == "stmt" and id(k.ast) in body_nodes and isinstance(k.ast, ast.Assign)
+                           and isinstance(k.ast.value, ast.Call) and call_name(k.ast.value) == "_next_token_is"
+                           and any(isinstance(x, ast.Attribute) and x.attr == op + "End" for x in ast.walk(k.ast.value))]
+                for fch in fetches:
+                    if not v.every_path_to_exit_passes(fch, closers):
+                        ok = False
             ctx.count_paths()
             ctx.check(ok, "R15.3", gp.qualname, "closing test for Token." + op, loc(gp, c.ast),
                       "the branch for the opening symbol Token.%s can finish without a test of the closing token that "
